@@ -100,7 +100,7 @@ func c26Seeds() []elfgen.File {
 
 func init() {
 	checks["C26"] = eng.Check{
-		Rule:        "the real mltwist binary (built from the working tree) run as a process with stdin=/dev/null under a 4 GiB address-space limit and a 300 s hang guard on: (a) ELF files with RISC-V payloads over {valid code, undecodable word, truncated word, jump outside the code, misaligned jumps into the first / a middle / the last instruction of a block, entry at every 2-byte offset of the code and outside it, no executable section, no loadable segment, overlapping segments} x types; (b) every truncation length and every single-byte substitution {00, ff, ~b} of every header byte (ELF header, program headers, section headers) of two valid seed files; (c) memsz in {2^31, 2^36, 2^62, 2^63, 2^64-1}, filesz > file, section/segment addresses at the top of the address space; (d) argument vectors of length 0, 2, 3, a missing file, a directory, an empty file; plus the two seed files under a pseudo-terminal (UI must be entered and 'q' must exit 0). Oracle: exit status 1 with a 'mltwist: ' message (or UI entered), never a Go panic/fatal error, signal or timeout. Non-trivial = runs ending with the error exit.",
+		Rule:        "the real mltwist binary (built from the working tree) run as a process with stdin=/dev/null under a 4 GiB address-space limit and a 300 s hang guard on: (a) ELF files with RISC-V payloads over {valid code, undecodable word, truncated word, jump outside the code, misaligned jumps into the first / a middle / the last instruction of a block, entry at every 2-byte offset of the code and outside it, no executable section, no loadable segment, overlapping segments} x types; (b) every truncation length and every single-byte substitution {00, ff, ~b} of every header byte (ELF header, program headers, section headers) of two valid seed files (thorough: 20 substitute values for EVERY byte of the files); (c) memsz in {2^31, 2^36, 2^62, 2^63, 2^64-1}, filesz > file, section/segment addresses at the top of the address space; (d) argument vectors of length 0, 2, 3, a missing file, a directory, an empty file; plus the two seed files under a pseudo-terminal (UI must be entered and 'q' must exit 0). Oracle: exit status 1 with a 'mltwist: ' message (or UI entered), never a Go panic/fatal error, signal or timeout. Non-trivial = runs ending with the error exit.",
 		Assumptions: []string{"with stdin=/dev/null a file that loads ends in 'cannot get terminal size' (exit 1), which counts as a regular error exit; the pty runs confirm that valid files do enter the UI"},
 		Run: func(r *eng.Run) {
 			dir, err := os.MkdirTemp("", "vc26")
@@ -200,11 +200,24 @@ func init() {
 				for i := shStart; i < len(b); i++ {
 					idx = append(idx, i)
 				}
+				vals := func(o byte) []byte { return []byte{0x00, 0xff, ^o} }
+				if !r.Quick() {
+					// thorough: every byte of the file (not only the headers) and 20 substitute values
+					idx = idx[:0]
+					for i := range b {
+						idx = append(idx, i)
+					}
+					vals = func(o byte) []byte {
+						return []byte{0, 1, 2, 3, 4, 7, 8, 0x10, 0x3f, 0x40, 0x41, 0x7f, 0x80, 0xf3, 0xfe, 0xff, o ^ 1, o + 1, o - 1, ^o}
+					}
+				}
 				for _, i := range idx {
-					for _, v := range []byte{0x00, 0xff, ^b[i]} {
-						if v == b[i] {
+					done := map[byte]bool{}
+					for _, v := range vals(b[i]) {
+						if v == b[i] || done[v] {
 							continue
 						}
+						done[v] = true
 						if r.Quick() && v == ^b[i] && i%2 == 1 {
 							continue
 						}
